@@ -167,6 +167,23 @@ def make_tree(kind, seed, t):
                '<surName>S</surName></individualName></creator><contact><references>c1</references></contact>'
                '<additionalMetadata><metadata><x:unit xmlns:x="urn:x" x:a="1">u</x:unit></metadata></additionalMetadata></dataset></eml:eml>')
         return metapype_io.from_xml(xml, clean=rnd.random() < 0.5)
+    if kind == "exotic":
+        # attribute / extras / namespace values (and content) of types the serialisers were not written for: a read-only
+        # operation may refuse them (an exception is a result), it may not "repair" the tree
+        import datetime
+        import decimal
+        import uuid
+        root = tables.TreeGen(t, seed, max_depth=3, breadth=3).gen(rnd.choice(["dataset", "creator", "project"]))
+        vals = [uuid.UUID(int=seed + 7), decimal.Decimal("1.50"), datetime.date(2020, 2, 29), b"bytes", 5, 1.5, True, None, ("t", 1), frozenset({1})]
+        for i, n in enumerate(walk(root)):
+            v = vals[(seed + i) % len(vals)]
+            if i % 3 == 0:
+                n.add_attribute("id" if i % 2 else "zzExotic", v)
+            elif i % 3 == 1:
+                n.add_extras("x:exotic", v)
+            elif not n.children:
+                n.content = v
+        return root
     if kind in ("mutated", "stripped"):
         # "all trees": invalid ones too - the fixture or a generated tree after adversarial mutations, or with the
         # attributes (required ones included) of half of its nodes removed
@@ -242,9 +259,9 @@ def run(rep, tier, seed):
     for i, kind in enumerate(["generated", "entities", "ns", "default-ns"] + (["generated", "entities"] if tier == "thorough" else [])):      # (small trees: 31^2 pairs of calls each)
         jobs.append((kind, seed * 101 + i, plan_pairs))
     # seeded sequences of length 24 on larger trees, incl. the fixture
-    nseq = 14 if tier == "quick" else 210
+    nseq = 16 if tier == "quick" else 240
     for i in range(nseq):
-        kind = ["fixture", "generated", "entities", "ns", "default-ns", "mutated", "stripped"][i % 7]
+        kind = ["fixture", "generated", "entities", "ns", "default-ns", "mutated", "stripped", "exotic"][i % 8]
         jobs.append((kind, seed * 977 + i, [rnd.choice(sorted(ops)) for _ in range(24)]))
     traces = [tr for chunk in parallel(w_record, jobs, chunk=1) for tr in chunk]
     strip = lambda tr: {"init": tr["init"], "events": tr["events"]}  # noqa: E731
